@@ -84,3 +84,29 @@ def run_generic(prop: str, idx: Index, rep: Report, tier: str) -> None:
     n += extra3.size_fixpoint_loops(rep, f"{g} fixpoint-loop-measures-the-collection", funcs) or 0
     n += extra3.keyword_attribute_crossing(rep, f"{g} keyword-field-crossing", funcs) or 0
     rep.count("generic_instances", n)
+
+
+def delegate(idx: Index, rep: Report, tier: str, other: str, prefixes, why: str) -> int:
+    """Some clauses are necessary conditions of more than one property (the state representation under the simulator,
+    the walker machinery under every evaluator): the obligations of `other`'s check whose rule starts with one of
+    `prefixes` are decided once more under this property's name (`<rule> [for <ID>: why]`), so a change that breaks
+    this property through that mechanism is reported by this property's check too."""
+    import importlib
+
+    from .extra import run_extra
+    from .extra2 import run_extra2
+    from .extra3 import run_extra3
+
+    sub = Report(other, tier, rep.seed)
+    importlib.import_module(f"upsa.props.{other}").run(idx, sub, tier)
+    run_extra(other, idx, sub, tier)
+    run_extra2(other, idx, sub, tier)
+    run_extra3(other, idx, sub, tier)
+    n = 0
+    for o in sub.obligations:
+        if any(o.rule.startswith(p) for p in prefixes):
+            o.rule = f"{o.rule} [for {rep.prop}: {why}]"
+            rep.obligations.append(o)
+            n += 1
+    rep.count(f"delegated_from_{other}", n)
+    return n
